@@ -14,9 +14,11 @@ LEAN_TARGETS = ["Pyrtma.Props.C13"]
 LEVEL = "proof"
 TRUSTED = [
     "Lean 4.33.0 kernel", "axioms: propext, Classical.choice, Quot.sound only (audited by #print axioms)",
-    "hashlib.sha256 (the model yields the hashed TEXT; the harness hashes it); a 32-bit prefix can collide",
+    "hashlib.sha256 only as the reference the model's own SHA-256 (Model/Sha256.lean) is compared with on every run "
+    "(NIST vectors, every length 0..199, random bytes and texts, every generated definition text); a 32-bit prefix can collide",
     "harness/hash_corr.py: tree writer, identity resolver, variant generators, regex readers of the .h/.js/.m outputs",
-    "ruamel.yaml: comments, blank lines, quoting and hex spelling do not reach the loaded values",
+    "ruamel.yaml only as the reference Model/YamlDef.lean: loadDef is compared with (the physical lines of every generated "
+    "definition, decorated at random, loaded by both)",
 ]
 
 
@@ -54,6 +56,18 @@ def _match(clause: str, case: Any) -> Optional[str]:
         if fid in MATCHERS and MATCHERS[fid](clause, case):
             return fid
     return None
+
+
+def _corr_name(d: str) -> str:
+    if d.startswith("diff digest"):
+        return "corr:M8/sha256-of-text"
+    if d.startswith("diff sha256"):
+        return "corr:M8/sha256"
+    if d.startswith("diff loader"):
+        return "corr:M8/yaml-loader"
+    if d.startswith(("diff hash32", "diff outputs")):
+        return "corr:M8/hash32-in-outputs"
+    return "corr:M8/rawtext"
 
 
 def _count(d: Dict[str, int], k: str):
@@ -109,7 +123,8 @@ def _feed(res: C.Result, recs: List[Dict[str, Any]]):
         case = {"tag": r["tag"], "base": r["base"], "variant": r["variant"], "target_a": r["target_a"],
                 "target_b": r["target_b"], "uses_ref": r["uses_ref"]}
         for d in o["corr"]:
-            res.corr_diffs.append({"name": "corr:M8/rawtext", "diff": d[:500], "case": case})
+            res.corr_diffs.append({"name": _corr_name(d), "diff": d[:500], "case": case})
+        _count(ex.setdefault("digests_computed_in_model", {}), "n")
         # the model's text, hashed here, must be the parser's hash
         checks = [(cid, r["hash_b"])] + list(r.get("extra_hash", {}).items())
         for c2, h in checks:
@@ -121,7 +136,8 @@ def _feed(res: C.Result, recs: List[Dict[str, Any]]):
             _count(ex.setdefault("texts_hashed", {}), "n")
         for c2 in r.get("extra_hash", {}):
             for d in out.get(c2, {}).get("corr", []):
-                res.corr_diffs.append({"name": "corr:M8/rawtext", "diff": d[:500], "case": case})
+                res.corr_diffs.append({"name": _corr_name(d), "diff": d[:500], "case": case})
+            _count(ex.setdefault("digests_computed_in_model", {}), "n")
         for v in o["props"].get(PROP, []):
             _count(ex.setdefault("verdicts", {}), v.split()[0] + (":" + kind if v.startswith("ok") else ""))
             if v.startswith("fail"):
@@ -141,6 +157,7 @@ def _outputs(res: C.Result, deep: bool):
     ex = res.extra
     n = 12 if deep else 3
     langs = {"py": 0, "c": 0, "js": 0, "m": 0, "header.version": 0}
+    spec_fail: List[Tuple[str, Any, str, Any]] = []
     for k in range(n):
         tree, target = H.base_tree(rng)
         names = [d["name"] for f in tree["files"] for d in f["defs"] if d["kind"] == "m"]
@@ -151,9 +168,19 @@ def _outputs(res: C.Result, deep: bool):
             continue
         if "_sender_error" in got:
             res.corr_diffs.append({"name": "corr:C13/sender-probe", "diff": got["_sender_error"], "case": {"tree": tree}})
+        drv = _outputs_driver(tree, names, got, f"o{k}")
         for nme in names:
             g = got[nme]
             case = {"tag": "outputs", "tree": tree, "message": nme, "observed": g}
+            o = drv.get(nme)
+            if o is None:
+                raise C.MachineryError(f"driver gave no answer for the outputs of {nme}")
+            for d in o["corr"]:
+                res.corr_diffs.append({"name": _corr_name(d), "diff": d[:500], "case": case})
+            for v in o["props"].get(PROP, []):
+                _count(ex.setdefault("verdicts", {}), v.split()[0] + (":outputs" if v.startswith("ok") else ""))
+                if v.startswith("fail") and "_sender_error" not in got:
+                    spec_fail.append((v[5:], case, nme, g))
             for lang in ("py", "c", "js", "m"):
                 if g.get(lang) is None:
                     if "_sender_error" in got and lang == "py":
@@ -172,8 +199,49 @@ def _outputs(res: C.Result, deep: bool):
                 else:
                     langs["header.version"] += 1
             res.note_case(("out", json.dumps(tree, sort_keys=True), nme))
+    # the Spec's verdict (driver) and the direct comparison above must name the same failures
+    have = {(f.clause, json.dumps(f.case, sort_keys=True)) for f in res.failures}
+    for cl, case, nme, g in spec_fail:
+        if (cl, json.dumps(case, sort_keys=True)) not in have:
+            res.failures.append(C.Failure(clause=cl, case=case, detail=f"{nme}: {cl} (Spec judgeOutputs on {g})"))
     ex["outputs_agreeing"] = langs
     ex["outputs_trees"] = n
+
+
+def _outputs_driver(tree, names, got, prefix: str) -> Dict[str, Dict[str, Any]]:
+    """the model's hash32 of every message against the parser's, the four outputs' and the sender's values"""
+    lines: List[str] = []
+    ids: Dict[str, str] = {}
+    for i, nme in enumerate(names):
+        g = got[nme]
+        fi, di = H._find(tree, nme)
+        cid = f"{prefix}_{i}"
+        ids[cid] = nme
+
+        def hx(v):
+            return "-" if v is None else "%x" % v
+        vs = ",".join("%x" % v for v in g.get("versions", [])) or "-"
+        lines += [f"CASE {cid}", H.def_tok(tree["files"][fi]["defs"][di]),
+                  f"OUTS {H._hex(g['raw'])} {g['full']} {hx(g.get('py'))} {hx(g.get('c'))} {hx(g.get('js'))} {hx(g.get('m'))} {vs}", "END"]
+    out = C.parse_driver(C.run_driver("hashtext", lines))
+    return {ids[c]: o for c, o in out.items() if c in ids}
+
+
+def _sha(res: C.Result, deep: bool):
+    """Model/Sha256.lean against hashlib (and hashlib against the published digests)"""
+    rng = C.rng_for(res.seed, "C13sha" + ("deep" if deep else ""))
+    cases = H.sha_cases(rng, 6000 if deep else 1500, big=deep)
+    lines, meta = H.sha_lines(cases)
+    out = C.parse_driver(C.run_driver("hashtext", lines))
+    ex = res.extra
+    for cid, m in meta.items():
+        o = out.get(cid)
+        if o is None:
+            raise C.MachineryError(f"driver gave no answer for case {cid}")
+        _count(ex.setdefault("sha256_vectors", {}), m["tag"])
+        res.traces_validated += 1
+        for d in o["corr"]:
+            res.corr_diffs.append({"name": _corr_name(d), "diff": d[:300], "case": m})
 
 
 def run(res: C.Result, deep: bool):
@@ -187,7 +255,7 @@ def run(res: C.Result, deep: bool):
     res.extra["corpus_cases"] = len(corpus)
     res.rule = ("corpus; directed pairs; %d seeded definition trees (1-3 files, structs, messages, signals, re-use forms, type "
                 "texts with arrays / blanks / struct references) each with every relocation (same tree again, other "
-                "directories, comments and blank lines 3 ways, own file on top, unrelated definitions added, other "
+                "directories, comments and blank lines 3 fixed ways and twice decorated at random (comment lines at any indentation, trailing comments with ':' '#' quotes, blank lines, trailing blanks, indentation widths, quote styles, hex ids, key order), own file on top, unrelated definitions added, other "
                 "messages removed, hex id, key order, quoted type texts, imports reordered and repeated; re-use spelled out / "
                 "pointed at an identical copy) and every single edit (rename x2, id x2, signal<->message, per field: rename, "
                 "retype, array-ness, type-text spelling, delete; insert at every position, adjacent swaps, names swapped, "
@@ -195,6 +263,7 @@ def run(res: C.Result, deep: bool):
                 "the real Parser; model text compared with MDF.raw and sha256(model text) with MDF.hash for every definition "
                 "of every variant; %d trees compiled to Python/C/JS/MATLAB and sent through a real Client" %
                 (1500 if deep else 150, 12 if deep else 3))
+    _sha(res, deep)
     recs = H.run_pairs(corpus + jobs)
     for i in range(0, len(recs), 5000):
         _feed(res, recs[i:i + 5000])
